@@ -30,7 +30,7 @@ ASSUMPTIONS = [
     "connect outcomes are environment data: a non-blocking tcp connect to a loopback address answers Ok (EINPROGRESS), to 255.255.255.255 fails synchronously (ENETUNREACH in tcp_v4_connect); the driver re-checks this on every connect",
     "LoadMetric::ConnectionTime (PeakEWMA) and the contents of the 65537-slot production Maglev table are not modelled (the same rebuild code is compared slot by slot at table sizes 2..31)",
 ]
-TRUSTED = ["translator props/c12.py:translate compares DEFAULT_TABLE_SIZE, DEFAULT_WEIGHT, the max_tries of Backend::new, and the bodies of can_open / is_available / the fail-open filter with lib/src/{backends,load_balancing}.rs"]
+TRUSTED = ["translator props/c12.py:translate compares DEFAULT_TABLE_SIZE, DEFAULT_WEIGHT, the max_tries of Backend::new, the bodies of can_open / is_available / the fail-open filter and the statements of ExponentialBackoffPolicy::{fail,can_try} with lib/src/{backends,load_balancing,retry}.rs"]
 
 
 def _norm(s):
@@ -77,6 +77,23 @@ def translate():
         fails.append("backends.rs: can_open / is_available not found (%s)" % ex)
     if not re.search(r"owned\.status == BackendStatus::Normal\s*&&\s*matches!\(owned\.retry_policy\.can_try\(\), Some\(retry::RetryAction::OKAY\)\)", be):
         fails.append("backends.rs: the fail-open filter is no longer `Normal && can_try()==OKAY`")
+    rt = open(os.path.join(vlib.REPO, "lib/src/retry.rs")).read()
+    try:
+        imp = rt[rt.index("impl RetryPolicy for ExponentialBackoffPolicy"):]
+        fl = _norm(_fn_body(imp, "fn fail(&mut self)"))
+        for frag, what in [
+            ("if self.last_try.elapsed().lt(&self.wait) { return; }", "fail() no longer returns early inside a window"),
+            ("self.last_try = time::Instant::now();", "fail() no longer anchors the window at the failure (last_try = now)"),
+            ("self.current_tries = cmp::min(self.current_tries + 1, self.max_tries);", "fail() no longer saturates current_tries at max_tries"),
+            ("rng.random_range(1..max_secs)", "fail() no longer draws the window from [1, 2^tries)"),
+        ]:
+            if _norm(frag) not in fl:
+                fails.append("retry.rs: " + what)
+        ct = _norm(_fn_body(imp, "fn can_try(&self)"))
+        if "self.last_try.elapsed().ge(&self.wait)" not in ct:
+            fails.append("retry.rs: can_try() is no longer `last_try.elapsed() >= wait`")
+    except ValueError as ex:
+        fails.append("retry.rs: fail / can_try not found (%s)" % ex)
     return fails
 
 
@@ -276,7 +293,7 @@ def history_case(rng, cid, focus=None):
 
 
 def gen_cases(rng, tier):
-    n = {"quick": 4000, "thorough": 60000, "search": 20000}.get(tier, 4000)
+    n = {"quick": 2000, "thorough": 60000, "search": 12000}.get(tier, 2000)
     out = []
     for i in range(n):
         focus = [None, None] + KINDS
